@@ -594,6 +594,9 @@ func search(cases []caseLine) {
 			if strings.Contains(r.errStr, "SAR bad index 0") {
 				class = "aspect-ratio-idc-0-rejected"
 			}
+			if cl := classifyHevc(c, nil); cl != "" {
+				class = cl
+			}
 			fmt.Fprintf(out, "FAIL\t%s\t%s\t%s\t%s\n", site, class, wit,
 				"syntactically valid NAL unit from the independent serialiser: "+r.outcome+" "+r.errStr)
 			continue
